@@ -81,6 +81,7 @@ func tableOf(p *Plan, name string) *Table {
 
 func runShadow(p *Plan) *shadowRun {
 	sr := &shadowRun{s0: DBState{}, ok: true}
+	autoStep = int64(p.AutoStep)
 	auto := map[string]*int64{}
 	for _, t := range p.Tables {
 		st := &TabState{Name: t.Name}
@@ -296,7 +297,8 @@ const faultPattern = "^(?i)\\s*(START TRANSACTION|BEGIN|COMMIT|UPDATE|DELETE|INS
 var faultKinds = []string{"BEGIN", "EXEC", "QUERY", "PREPARE", "STMT_EXEC", "STMT_QUERY", "COMMIT"}
 
 func buildScenario(p *Plan) (atrun.Scenario, *stepIdx) {
-	sc := atrun.Scenario{Name: p.Name, Config: p.Config}
+	// every plan runs under the same database name (on its own server): process-wide state keyed by database name is shared
+	sc := atrun.Scenario{Name: p.Name, Config: p.Config, DB: "atroll", FixedDB: true, AutoIncStep: p.AutoStep}
 	for _, t := range p.Tables {
 		sc.Setup = append(sc.Setup, t.ddl())
 	}
